@@ -87,7 +87,7 @@ def finish(meta, src, name):
     d = V / 'seeded' / name
     d.mkdir(parents=True, exist_ok=True)
     for f in ('patch.diff', 'demo.py', 'notes.md'):
-        if (src / f).exists():
+        if (src / f).exists() and (src / f).resolve() != (d / f).resolve():
             shutil.copy(src / f, d / f)
     if (src / 'notes.md').exists():
         meta['needs_to_manifest'] = (src / 'notes.md').read_text()[:1500]
